@@ -31,7 +31,7 @@ PROPS["C19"] = {
                   "overwrites every secret Configuration field with a literal (safe_options_masks) and the value it returns reaches no "
                   "secret; hand-proved render/mask non-interference of the formatting model for all values and all password strings. "
                   "Dynamic support: the real sync/restore/rump/dump/decode run paths, the configuration echo and the status documents "
-                  "are executed against fake Redis peers with sentinel passwords and every output line is searched.",
+                  "are executed against fake Redis peers (co-operative, rejecting, mute, down, resetting every connection, TLS mismatch) and utils.AuthPassword on connections failing at each point with sentinel passwords and every output line is searched.",
     "level_note": "The theorem is about the EXTRACTED graph, not about Go semantics: soundness of the extractor's edge rules "
                   "(go/logflow/main.go: assignments, field-based structs, calls/returns, closures, channel sends, CHA for interface "
                   "methods, signature matching for function values, a default 'everything flows everywhere' summary for unanalysed "
